@@ -3,6 +3,10 @@
 import json, os, subprocess
 CLAIMED = {
  # id: (level text, level_note, design_ref)
+ "C10": ("Proof (WP over go/ssa + SMT), for all paths, of the series-id allocation protocol (an id is created only after the lookup of the same key answered none without error; a found id is returned unchanged; a returned id has been tested against the deleted set on both the cache and the index path), of the row-folding predicate of the index merge (rows are folded only if date, prefix, measurement name and tag are equal) and of the reset of every per-use flag of a pooled tag filter.",
+         "Trusted: uint64set membership, atomic load of the deleted set. Not decided: regular-expression predicates, AND/OR set algebra of the search, mergeset table contents and caches across reopen, id generator monotonicity.", "DESIGN.md §5 C10"),
+ "C13": ("Proof (WP over go/ssa + SMT), for all paths, of the catalogue side of DROP: re-creating a measurement bumps the version kept for its name (physical name changes); DropMeasurement/DropDatabase delete only entries keyed by the given name (and only a marked measurement); the delete marks of database / policy / measurement are set only after every precondition check returned nil; plus the index side: a series id returned for a key has been tested against the deleted-id set on every path (new writes to a dropped series get a fresh id).",
+         "Not decided: store-side file deletion, restart, every read path going through the filtered entry points; the check functions (CheckStreamExist*, checkMigrateConflict) have trusted frames.", "DESIGN.md §5 C13"),
  "C15": ("Proof (WP over go/ssa + SMT) of structural completeness (class D `carries`) of the catalogue snapshot path: for every field of every struct (enumerated from go/types, so later additions are covered) the clone holds an equal value (scalars, strings, struct values) or a non-aliased copy with equal length/nil-ness (slices, maps, pointers), for Data.Clone and the clone functions of DatabaseInfo, RetentionPolicyInfo, MeasurementInfo, ShardGroupInfo, ShardInfo, IndexGroupInfo, IndexInfo, UserInfo, ShardKeyInfo, MeasurementVer, ContinuousQueryInfo, NodeInfo.",
          "Frames of the clone helpers are trusted (they only write fresh objects); element-wise equality inside cloned collections, Marshal/Unmarshal round trip and determinism of the ~70 apply handlers are not decided; fields explicitly listed `shared`/`except` in the contract file are reported in the evidence.", "DESIGN.md §5 C15"),
  "C07": ("Proof (WP over go/ssa + SMT, bit-vector mode: Go's wraparound, shifts and byte truncation are exact) for all inputs of the leaf codecs in lib/numberenc (uint16/32/64, zig-zag int64, float64 bit pattern, bool: length, prefix preservation, big-endian value equation, decoder = inverse equation, zig-zag round-trip lemmas), and of the float column encoder's scheme selection in lib/compress (NaN/Inf anywhere forces the NaN-safe scheme, 'all same' means bit-identical, the same-value block elides only the all-zero bit pattern, the output is never touched after a Gorilla error).",
